@@ -56,6 +56,7 @@ I(n)   == [t |-> "int", v |-> n]
 X(k)   == [t |-> "exc", v |-> k]
 Lst(s) == [t |-> "list", v |-> s]
 None   == [t |-> "none", v |-> 0]
+Nil    == [t |-> "nil", v |-> 0]      \* the Python value None as an ELEMENT of a stream (an ordinary element)
 
 IsInt(x)  == x.t = "int"
 IsExc(x)  == x.t = "exc"
@@ -383,6 +384,7 @@ RECURSIVE ElemOK(_)
 ElemOK(x) == \/ x.t = "int" /\ x.v \in Nat
              \/ x.t = "exc" /\ x.v \in {"V", "K", "U", "T"}
              \/ x.t = "list" /\ \A i \in 1..Len(x.v) : ElemOK(x.v[i])
+             \/ x = Nil
 StreamOK(S) == (\A i \in 1..Len(S.items) : ElemOK(S.items[i])) /\ (Ok(S) \/ IsExc(S.err))
 
 TypeOK == /\ Len(stages) = Len(prog) + 1 /\ Len(prog) <= MaxDepth
@@ -451,7 +453,8 @@ CaseSum == WSum(input, Len(input)) + 7 * OpSum(prog, Len(prog))
 
 \* compact encoding: an int is a JSON number, an exception object the string of its kind, a list a JSON array
 RECURSIVE Enc(_)
-Enc(x) == IF IsInt(x) THEN x.v ELSE IF IsExc(x) THEN x.v ELSE IF IsList(x) THEN [i \in 1..Len(x.v) |-> Enc(x.v[i])] ELSE ""
+Enc(x) == IF IsInt(x) THEN x.v ELSE IF IsExc(x) THEN x.v ELSE IF IsList(x) THEN [i \in 1..Len(x.v) |-> Enc(x.v[i])]
+          ELSE IF x = Nil THEN "N" ELSE ""
 EncSeq(s) == [i \in 1..Len(s) |-> Enc(s[i])]
 
 \* <<source (alphabet indices), program (<<op, a, b, n>>), expected elements, expected raised element or "", shuffled?, need table>>
